@@ -180,3 +180,174 @@ def kernel_route(ctx, stage, texts, res, dist=None):
     if dist is not None:
         dist['kernel_evaluated_' + stage] = done
     return done
+
+
+# ---- inputs beyond plausible size thresholds (gens.threshold_cases): per-property checks on the real library -----------
+def _nodes(p):
+    out = []
+
+    def w(t):
+        out.append(t)
+        if t.is_group:
+            for c in t.tokens:
+                w(c)
+    w(p)
+    return out
+
+
+def _th_check(prop, kind, text, meta):
+    """-> description of the failure of property `prop` on this input, or None"""
+    import sqlparse
+    from sqlparse import sql, tokens as T
+    try:
+        stmts = sqlparse.parse(text)
+    except sqlparse.exceptions.SQLParseError:
+        return None                                   # allowed outcome for pathological nesting (C15)
+    except Exception as e:  # noqa
+        return 'parse raised %s' % type(e).__name__ if prop in ('C07', 'C02', 'C03') else None
+    if prop == 'C02':
+        if ''.join(str(s) for s in stmts) != text:
+            return 'str() of the statements does not reproduce the input'
+        for s in stmts:
+            for n in _nodes(s):
+                if n.is_group and str(n) != ''.join(t.value for t in n.flatten()):
+                    return 'str(node) differs from the concatenation of its leaves'
+        return None
+    if prop == 'C03':
+        from sqlparse import lexer
+        leaves = [t for s in stmts for t in s.flatten()]
+        if [(t.value) for t in leaves] != [v for _, v in lexer.tokenize(text)]:
+            return 'the leaves are not the lexer tokens'
+        for s in stmts:
+            for n in _nodes(s):
+                if n.is_group:
+                    if not n.tokens:
+                        return 'empty group ' + type(n).__name__
+                    if n.value != str(n):
+                        return 'cached value of %s differs from its text' % type(n).__name__
+                    for c in n.tokens:
+                        if c.parent is not n:
+                            return 'parent of a child of %s is not that group' % type(n).__name__
+        return None
+    if prop == 'C09':
+        ns = [n for s in stmts for n in _nodes(s)]
+        d = meta.get('depth')
+        if kind == 'deep-paren-case':
+            ok = sum(isinstance(n, sql.Parenthesis) for n in ns) == d and sum(isinstance(n, sql.Case) for n in ns) == 1
+            return None if ok else 'expected %d Parenthesis nodes around 1 Case node' % d
+        if kind == 'deep-paren-if':
+            ok = sum(isinstance(n, sql.Parenthesis) for n in ns) == d and sum(isinstance(n, sql.If) for n in ns) == 1
+            return None if ok else 'expected %d Parenthesis nodes around 1 If node' % d
+        if kind == 'deep-bracket':
+            ok = sum(isinstance(n, sql.SquareBrackets) for n in ns) == d and sum(isinstance(n, sql.Parenthesis) for n in ns) == 1
+            return None if ok else 'expected %d SquareBrackets nodes around 1 Parenthesis node' % d
+        if kind == 'deep-function':
+            ok = sum(isinstance(n, sql.Parenthesis) for n in ns) == d
+            return None if ok else 'expected %d Parenthesis nodes' % d
+        if kind.startswith('many-tokens'):
+            want = text.count('(')
+            got = sum(isinstance(n, sql.Parenthesis) for n in ns)
+            return None if got == want else 'expected %d Parenthesis nodes, found %d' % (want, got)
+        return None
+    if prop == 'C12':
+        if kind != 'deep-subquery-alias':
+            return None
+        ids = [n for s in stmts for n in _nodes(s) if isinstance(n, sql.Identifier) and str(n) == meta['ident']]
+        if len(ids) != 1:
+            return 'the written reference %r is not one Identifier (%d found)' % (meta['ident'], len(ids))
+        i = ids[0]
+        got = (i.get_alias(), i.get_real_name(), i.get_parent_name(), i.get_name(), i.has_alias())
+        want = (meta['alias'], meta['real'], meta['parent'], meta['alias'], True)
+        return None if got == want else 'accessors of %r return %r, written %r' % (meta['ident'], got, want)
+    if prop == 'C13':
+        ns = [n for s in stmts for n in _nodes(s)]
+        if kind == 'many-tokens-select':
+            ws = [str(n) for n in ns if isinstance(n, sql.Where)]
+            if ws != [meta['where']]:
+                return 'Where nodes %r, written %r' % ([w[:40] for w in ws], meta['where'])
+            ils = [n for n in ns if isinstance(n, sql.IdentifierList)]
+            if len(ils) != 1 or len(list(ils[0].get_identifiers())) != meta['items']:
+                return 'the select list of %d items is not ONE IdentifierList with those items' % meta['items']
+        if kind == 'many-tokens-in-list':
+            ws = [str(n) for n in ns if isinstance(n, sql.Where)]
+            if len(ws) != 1 or not ws[0].startswith(meta['where_prefix']) or 'returning' in ws[0].lower():
+                return 'Where node does not span WHERE .. just before RETURNING'
+        if kind == 'deep-function':
+            fs = [n for n in ns if isinstance(n, sql.Function)]
+            if len(fs) != meta['depth']:
+                return 'expected %d nested Function nodes, found %d' % (meta['depth'], len(fs))
+            inner = min(fs, key=lambda f: len(str(f)))
+            if [str(p) for p in inner.get_parameters()] != ['x', '1']:
+                return 'get_parameters() of the innermost call is %r' % [str(p) for p in inner.get_parameters()]
+        return None
+    if prop == 'C18':
+        want = meta.get('type') or ('SELECT' if kind in ('many-tokens-select', 'deep-subquery-alias', 'deep-function') else None)
+        if want and stmts and stmts[0].get_type() != want:
+            return 'get_type() = %r, expected %r' % (stmts[0].get_type(), want)
+        return None
+    if prop in ('C10', 'C06'):
+        if not kind.startswith('many-tokens'):
+            return None
+        try:
+            out = sqlparse.format(text, strip_whitespace=True)
+        except Exception as e:  # noqa
+            return None
+        if prop == 'C10':
+            import re as _re
+            if _re.search(r'\( | \)|  ', out):
+                return 'strip_whitespace output has a blank after ( / before ) / a double blank'
+            return None
+        from sqlparse import lexer
+        sig = lambda s: [v for tt, v in lexer.tokenize(s) if tt not in T.Whitespace]
+        if sig(out) != sig(text):
+            return 'strip_whitespace changed the sequence of non-whitespace tokens'
+        return None
+    if prop == 'C07':
+        for opts in ({}, {'reindent': True}, {'strip_whitespace': True, 'keyword_case': 'upper'}):
+            try:
+                sqlparse.format(text, **opts)
+            except sqlparse.exceptions.SQLParseError:
+                pass
+            except Exception as e:  # noqa
+                return 'format(**%r) raised %s' % (opts, type(e).__name__)
+        for s in stmts[:1]:
+            try:
+                s.get_type()
+            except Exception as e:  # noqa
+                return 'get_type() raised %s' % type(e).__name__
+        return None
+    return None
+
+
+_TH_KINDS = {
+    'C12': ('deep-subquery-alias',),
+    'C18': ('many-tokens-cte-insert', 'many-tokens-in-list', 'deep-subquery-alias'),
+    'C10': ('many-tokens-select', 'many-tokens-in-list'),
+    'C06': ('many-tokens-select', 'many-tokens-cte-insert'),
+    'C13': ('many-tokens-select', 'many-tokens-in-list', 'deep-function'),
+    'C07': ('deep-paren-case', 'deep-subquery-alias', 'deep-function', 'many-tokens-cte-insert'),
+}
+
+
+def threshold_failures(prop, quick=True):
+    import gens
+    out = []
+    for kind, text, meta in gens.threshold_cases(quick):
+        if prop in _TH_KINDS and kind not in _TH_KINDS[prop]:
+            continue
+        why = _th_check(prop, kind, text, meta)
+        if why:
+            out.append({'input': [ord(c) for c in text[:200]], 'threshold_input': {'kind': kind, 'length': len(text)},
+                        'observed': 'input beyond a size threshold (%s, %d characters): %s' % (kind, len(text), why)})
+    return out
+
+
+def threshold_replay(prop, f):
+    import gens
+    ti = f.get('threshold_input') or {}
+    for quick in (True, False):
+        for kind, text, meta in gens.threshold_cases(quick):
+            if kind == ti.get('kind') and len(text) == ti.get('length'):
+                why = _th_check(prop, kind, text, meta)
+                return {'fails': bool(why), 'observed': why}
+    return {'fails': False, 'note': 'threshold input not found'}
